@@ -236,6 +236,10 @@ def confirm(c, outs):
         if got != want: return True, f'{prof}: converted to {got}, the physical quantity is {want}'
     return False, 'real build agrees with the oracle'
 
+def validate(tier, seed, report):
+    from props import unitlib
+    return unitlib.validate_kernels(seed, 80 if tier == 'quick' else 400, ops=('add', 'sub', 'mul', 'div'))
+
 def known_match(k, c): return True
 
 if __name__ == '__main__':
